@@ -5,6 +5,9 @@ use s2n_quic::provider::event::{self, events, ConnectionInfo, ConnectionMeta, Ev
 
 pub struct Sub {
     pub enabled: bool,
+    /// trace endpoint-level datagram drops (their event NAME is `transport:datagram_dropped`, which the
+    /// generic endpoint filter below does not select)
+    pub endpoint_drops: bool,
 }
 
 const WANTED: &[&str] = &[
@@ -61,6 +64,15 @@ impl event::Subscriber for Sub {
         let t = trace::now();
         let txt = format!("{event:?}").replace('\n', " ");
         trace::line(format!("ev {t} {} {} {} {txt}", ep(&meta.endpoint_type), meta.id, E::NAME));
+    }
+
+    fn on_endpoint_datagram_dropped(&mut self, meta: &events::EndpointMeta, event: &events::EndpointDatagramDropped) {
+        if !self.enabled || !self.endpoint_drops {
+            return;
+        }
+        let t = trace::now();
+        let txt = format!("{event:?}").replace('\n', " ");
+        trace::line(format!("ev {t} {} - transport:endpoint_datagram_dropped {txt}", ep(&meta.endpoint_type)));
     }
 
     fn on_event<M: Meta, E: Event>(&mut self, meta: &M, event: &E) {
